@@ -606,6 +606,19 @@ impl Sim {
             }
         }
 
+        // The dubious-hosts option may differ from run to run (the cache
+        // keeps what an earlier, more permissive run fetched).
+        if self.profile.allow_dubious_pct > 0 && step > 0 {
+            let mut drng = Rng::new(mix(&[self.seed, 110, step as u64]));
+            self.cfg.allow_dubious = drng.chance(
+                self.profile.allow_dubious_pct, 100
+            );
+            self.engine = None;
+            self.note(format!(
+                "step {step}: allow-dubious-hosts {}", self.cfg.allow_dubious
+            ));
+        }
+
         // Operations.
         let quiet = step > 0 && srng.chance(self.profile.quiet_pct, 100);
         let n_ops = if quiet { 0 } else if step == 0 && self.profile.name == "C08" {
@@ -2078,7 +2091,7 @@ impl Sim {
             );
         }
 
-        self.check_server_documents(step, snapshot);
+        self.check_server_documents(step, snapshot, expect.refresh_bound);
 
         // Signature of the case for distinctness accounting.
         let mut used = [0u32; 3];
@@ -2237,7 +2250,10 @@ impl Sim {
     }
 
     /// C22 and C34: documents and scheduling of the server after a run.
-    fn check_server_documents(&mut self, step: usize, snapshot: &PayloadSnapshot) {
+    fn check_server_documents(
+        &mut self, step: usize, snapshot: &PayloadSnapshot,
+        model_bound: Option<i64>,
+    ) {
         let Some(server) = self.server.as_ref() else { return };
         // C22
         let (status, body) = server.get("/api/v1/status");
@@ -2297,6 +2313,24 @@ impl Sim {
                         )));
                     }
                     self.stats.probe("expiry-before-refresh");
+                }
+            }
+            // Independently of what the served snapshot says about its own
+            // expiry: the model knows the earliest expiry on the chains of
+            // the contributing objects; the run after next must not be
+            // later than that (but never earlier than min-refresh).
+            if let (Some(min), Some(bound)) = (self.min_refresh, model_bound) {
+                let until = bound - self.now;
+                if until < refresh {
+                    let limit = until.max(min);
+                    if wait > limit {
+                        problems.push(("C34-expiry-late", format!(
+                            "contributing objects expire in {until}s (before \
+                             refresh {refresh}s), min-refresh {min}s: next \
+                             run scheduled in {wait}s, later than {limit}s"
+                        )));
+                    }
+                    self.stats.probe("model-expiry-before-refresh");
                 }
             }
         }
